@@ -26,9 +26,9 @@ for d in sorted(glob.glob(os.path.join(HERE, 'seeded', '*-*'))):
             res['apply'] = 'FAILED'; rows.append(res); continue
         res['apply'] = 'ok'
         subprocess.run(['git', '-C', r, 'reset', '-q'], check=False)
-        diff = subprocess.run(['git', '-C', r, 'diff'], capture_output=True, text=True).stdout
+        diff = subprocess.run(['git', '-C', r, 'diff'], capture_output=True).stdout      # bytes: some sources use CRLF
         if diff.strip():
-            open(os.path.join(d, 'patch.diff'), 'w').write(diff)
+            open(os.path.join(d, 'patch.diff'), 'wb').write(diff)
         t = subprocess.run(['/venv/bin/python', '-m', 'pytest', '-q', '-p', 'no:cacheprovider', '--timeout=900', 'test'], cwd=r, env=env, capture_output=True, text=True)
         res['suite'] = (t.stdout.strip().splitlines() or ['?'])[-1]
         c = subprocess.run(['/venv/bin/python', os.path.join(d, 'demo.py')], env=env, cwd=r, capture_output=True, text=True)
